@@ -1,7 +1,8 @@
 (* Extraction of the C11 model to OCaml (ExtrOcamlBasic + ExtrOcamlString only; N/Z/nat stay inductive). *)
 From Coq Require Import Extraction ExtrOcamlBasic ExtrOcamlString.
-From Cb Require Import C11.Model.
+From Cb Require Import C11.Model C11.Context.
 Extraction Language OCaml.
 Extraction "C11/c11_model.ml" instantiate clone subst_node generate_cache_key build_map
   substitute_generic_type_name subst_name3 call_cached call_pinned
-  uses_child_outside uses_scalar_outside cloned_child_fields subst_child_fields s2l.
+  uses_child_outside uses_scalar_outside cloned_child_fields subst_child_fields s2l
+  resolve_complex_type resolve_type_in_context impl_type_args fresh_inst find_impl_for_struct run run_main run_calls.
